@@ -170,6 +170,7 @@ func runC16(c *Ctx) {
 		ok := len(es.Missing) == 0 || (es.HasDefault && es.DefaultErr)
 		c.Ob("VERSION-SWITCH", es.Fn+"/switch FileVersion", es.Switch.Pos(), ok, len(es.Missing) > 0, "missing %v, default=%v", es.Missing, es.HasDefault)
 	}
+	c16Extra(c)
 }
 
 func c16IsConfigIface(name string) bool {
